@@ -127,9 +127,13 @@ func c28OpFromJSON(j c28Op) (c28op, error) {
 	return o, nil
 }
 
-func c28Alphabet() []c28op {
-	keys := []string{"a", "b", ""}
-	vals := []string{"", "1", "&=", "+ %", "\xff"}
+var c28BaseKeys = []string{"a", "b", ""}
+var c28BaseVals = []string{"", "1", "&=", "+ %", "\xff"}
+
+// keys/values that start with a space (serialised as a leading '+') followed by a byte that needs %XX, and the mirror
+var c28SpaceStrs = []string{" &", " %", " \xff", "  =", "& "}
+
+func c28Alphabet(keys, vals []string) []c28op {
 	var ops []c28op
 	for _, k := range keys {
 		for _, v := range vals {
@@ -232,14 +236,32 @@ func c28RefDecode(s string) string {
 
 // c28Case is a replayable case: an optional start query string (ParseBytes) followed by operations.
 type c28Case struct {
+	Prev  string  `json:"prev,omitempty"`  // strconv.Quote'd query string parsed BEFORE start into the same Args (reuse)
 	Start string  `json:"start,omitempty"` // strconv.Quote'd query string parsed first ("" = fresh Args)
 	Ops   []c28Op `json:"ops"`
+}
+
+// c28Prev is the query string parsed into the Args before the start string when the start string is one of the
+// "reuse" starts (marked by the prefix below in the start list); the Args slots then hold stale bytes.
+const c28ReuseMark = "\x00reuse:"
+
+func c28SplitStart(start string) (prev string, hasPrev bool, rest string) {
+	if strings.HasPrefix(start, c28ReuseMark) {
+		body := start[len(c28ReuseMark):]
+		i := strings.IndexByte(body, 0)
+		return body[:i], true, body[i+1:]
+	}
+	return "", false, start
 }
 
 func c28MakeCase(start string, hasStart bool, path []c28op) c28Case {
 	c := c28Case{Ops: []c28Op{}}
 	if hasStart {
-		c.Start = strconv.QuoteToASCII(start)
+		prev, hasPrev, rest := c28SplitStart(start)
+		if hasPrev {
+			c.Prev = strconv.QuoteToASCII(prev)
+		}
+		c.Start = strconv.QuoteToASCII(rest)
 	}
 	for _, o := range path {
 		c.Ops = append(c.Ops, o.json())
@@ -307,15 +329,27 @@ func c28Shape(got, want []string) string {
 // Peek, PeekMulti (per key), round trip. The second result reports whether the state disagreed (such a state is not
 // expanded, so a defect is attributed to the operation that introduced it and does not cascade).
 func c28Run(r *vrt.R, start string, hasStart bool, path []c28op, keys []string) (c28Model, bool) {
+	origStart := start
 	var a Args
 	var m c28Model
 	if hasStart {
-		a.ParseBytes([]byte(start))
-		m = c28RefParse(start)
+		prev, hasPrev, rest := c28SplitStart(start)
+		if hasPrev {
+			a.ParseBytes([]byte(prev))
+		}
+		a.ParseBytes([]byte(rest))
+		m = c28RefParse(rest)
+		start = rest
+		if hasPrev {
+			start = rest + " (Args reused after ParseBytes(" + strconv.Quote(prev) + "))"
+		}
 	}
 	for _, o := range path {
 		c28ApplyReal(&a, o)
 		m = c28ApplyModel(m, o)
+	}
+	if c28FastAgree(&a, m, keys) {
+		return m, false // allocation-free comparison of every observer found no difference
 	}
 	last := "initial"
 	if len(path) > 0 {
@@ -330,7 +364,7 @@ func c28Run(r *vrt.R, start string, hasStart bool, path []c28op, keys []string) 
 		}
 		violated = true
 		r.Violation("after-"+last+":"+observer+":"+shape, what+fmt.Sprintf(" (start=%q ops=%v model=%s)", start, c28PathString(path), c28ListString(m)),
-			c28MakeCase(start, hasStart, path))
+			c28MakeCase(origStart, hasStart, path))
 	}
 	// All / VisitAll order
 	var gotAll, gotVisit, wantAll []string
@@ -417,6 +451,89 @@ func c28Run(r *vrt.R, start string, hasStart bool, path []c28op, keys []string) 
 	return m, violated
 }
 
+// c28FastAgree is the allocation-light form of all comparisons of c28Run (same observers, same expectations, kept
+// literal on purpose): true means every observer agrees with the model. Only when it returns false is the slow path
+// taken, which re-evaluates everything and builds the readable difference and the signature.
+func c28FastAgree(a *Args, m c28Model, keys []string) bool {
+	if a.Len() != len(m) {
+		return false
+	}
+	i, ok := 0, true
+	for k, v := range a.All() {
+		if i >= len(m) || string(k) != m[i].K || string(v) != m[i].V {
+			ok = false
+		}
+		i++
+	}
+	if !ok || i != len(m) {
+		return false
+	}
+	i = 0
+	a.VisitAll(func(k, v []byte) {
+		if i >= len(m) || string(k) != m[i].K || string(v) != m[i].V {
+			ok = false
+		}
+		i++
+	})
+	if !ok || i != len(m) {
+		return false
+	}
+	for _, k := range keys {
+		first, n := "", 0
+		for _, e := range m {
+			if e.K == k {
+				if n == 0 {
+					first = e.V
+				}
+				n++
+			}
+		}
+		if a.Has(k) != (n > 0) || a.HasBytes([]byte(k)) != (n > 0) || string(a.Peek(k)) != first || string(a.PeekBytes([]byte(k))) != first {
+			return false
+		}
+		multi := a.PeekMulti(k)
+		if len(multi) != n {
+			return false
+		}
+		j := 0
+		for _, e := range m {
+			if e.K == k {
+				if string(multi[j]) != e.V {
+					return false
+				}
+				j++
+			}
+		}
+	}
+	qs := a.QueryString()
+	var b Args
+	b.ParseBytes(qs)
+	j := 0
+	for _, e := range m {
+		if e.K == "" && e.V == "" {
+			continue
+		}
+		if j >= len(b.args) || string(b.args[j].key) != e.K || string(b.args[j].value) != e.V || b.args[j].noValue != e.NoValue {
+			return false
+		}
+		j++
+	}
+	if j != len(b.args) {
+		return false
+	}
+	// cross-validation of the reference parser on the same string (as in the slow path)
+	ref := c28RefParse(string(qs))
+	if len(ref) != len(b.args) {
+		return false
+	}
+	for x := range ref {
+		if ref[x].K != string(b.args[x].key) || ref[x].V != string(b.args[x].value) || ref[x].NoValue != b.args[x].noValue {
+			return false
+		}
+	}
+	return true
+}
+
 func c28EntryString(k, v string, nv bool) string {
 	if nv {
 		return strconv.Quote(k)
@@ -493,7 +610,7 @@ func (x *c28Shards) insertHash(key string) bool {
 func TestVerif_C28(t *testing.T) {
 	r := vrt.Begin(t, "C28", "exploration")
 	defer r.End()
-	keys := []string{"a", "b", "", "zz"}
+	keys := append(append([]string{"zz"}, c28BaseKeys...), c28SpaceStrs...)
 	if rp := r.Replay(); rp != nil {
 		var c c28Case
 		if err := json.Unmarshal(rp, &c); err != nil {
@@ -506,6 +623,13 @@ func TestVerif_C28(t *testing.T) {
 				r.ToolError("replay artefact start: %v", err)
 			}
 			start, hasStart = s, true
+			if c.Prev != "" {
+				pv, err := strconv.Unquote(c.Prev)
+				if err != nil {
+					r.ToolError("replay artefact prev: %v", err)
+				}
+				start = c28ReuseMark + pv + "\x00" + s
+			}
 		}
 		var path []c28op
 		for _, j := range c.Ops {
@@ -524,117 +648,137 @@ func TestVerif_C28(t *testing.T) {
 		r.Eval(len(path) + 1)
 		return
 	}
-	ops := c28Alphabet()
+	ops := c28Alphabet(c28BaseKeys, c28BaseVals)
+	extOps := c28Alphabet(append(append([]string{}, c28BaseKeys...), c28SpaceStrs...), append(append([]string{}, c28BaseVals...), c28SpaceStrs...))
 	depth := vrt.Pick(r, 4, 5)
+	extDepth := 3
 	type startT struct {
 		s   string
 		has bool
 	}
-	starts := []startT{{"", false}, {"a=1&a=2&b", true}, {"&=&a&b=%ff&a=+", true}, {"a&a=&a=1&=x&%zz=%2", true}, {"b=1&a=1&a=2&a=3&b=2", true}}
+	starts := []startT{{"", false}, {"a=1&a=2&b", true}, {"&=&a&b=%ff&a=+", true}, {"a&a=&a=1&=x&%zz=%2", true}, {"b=1&a=1&a=2&a=3&b=2", true},
+		{"a=+%26&+%25=+x%26y&b=%26+&+%ff", true},                   // leading '+' followed by escapes
+		{c28ReuseMark + "a=1&b=2&c=3" + "\x00" + "x=1&flag", true}, // the same Args parsed twice: stale slot contents
+		{c28ReuseMark + "k=v1&k=v2&k=v3" + "\x00" + "a&b=&c", true}}
+	extStarts := []startT{{"", false}, {"a=+%26&+%25=+x%26y&b=%26+&+%ff", true}, {c28ReuseMark + "a=1&b=2" + "\x00" + "+%26=+%25&flag", true}}
 	r.Rule(fmt.Sprintf("explicit-state BFS over the real Args: all sequences of at most %d operations over {Add,Set}x{a,b,\"\"}x{\"\",1,&=,\"+ %%\",\\xff} + {SetNoValue,AddNoValue,Del}x{a,b,\"\"} (%d ops), "+
 		"from a fresh Args and from ParseBytes of %d query strings, de-duplicated on the reference model's (key,value,noValue) list; "+
 		"every reached state: Len, All, VisitAll, Has, Peek, PeekMulti (+Bytes variants) vs an ordered-multimap model (Set replaces the first entry only, Del removes all keeping order) "+
-		"and ParseBytes(QueryString()) vs the model minus entries with empty key and value; non-trivial: states holding two or more entries under one key", depth, len(ops), len(starts)-1))
+		"and ParseBytes(QueryString()) vs the model minus entries with empty key and value; non-trivial: states holding two or more entries under one key. "+
+		"Second pass: at most %d operations over the alphabet extended by the keys and values %q (%d ops) from %d starts. Starts include an Args that parsed another string before (reuse)", depth, len(ops), len(starts)-1, extDepth, c28SpaceStrs, len(extOps), len(extStarts)))
 	r.Assume("the reference model reads the statement literally: Set replaces the first entry with the key and leaves later entries with that key untouched")
 	r.Set("max_depth", depth)
 	r.Set("ops_in_alphabet", len(ops))
+	r.Set("ops_in_extended_alphabet", len(extOps))
+	r.Set("max_depth_extended_alphabet", extDepth)
 	var sampleN int
-	for si, st := range starts {
-		visited := newC28Shards()
-		type node struct{ path []uint8 }
-		toOps := func(p []uint8) []c28op {
-			out := make([]c28op, len(p))
-			for i, x := range p {
-				out[i] = ops[x]
-			}
-			return out
-		}
-		m0, bad0 := c28Run(r, st.s, st.has, nil, keys)
-		r.Eval(1)
-		if bad0 {
-			continue // reported; a start state that already disagrees is not expanded
-		}
-		visited.insert(m0.key())
-		r.Add("states", 1)
-		frontier := []node{{nil}}
-		for level := 0; level < depth && len(frontier) > 0; level++ {
-			lastLevel := level+1 == depth
-			var mu sync.Mutex
-			var next []node
-			var nStates, nTrans, nMulti, nPruned int64
-			r.Par(len(frontier), func(i int) {
-				if r.Expired() {
-					r.NotExhaustive("time budget reached during BFS level " + strconv.Itoa(level+1))
-					return
+	type passT struct {
+		name   string
+		ops    []c28op
+		depth  int
+		starts []startT
+	}
+	for pi, pass := range []passT{{"base", ops, depth, starts}, {"ext", extOps, extDepth, extStarts}} {
+		ops, depth, starts := pass.ops, pass.depth, pass.starts
+		for si, st := range starts {
+			si := si + 100*pi
+			visited := newC28Shards()
+			type node struct{ path []uint8 }
+			toOps := func(p []uint8) []c28op {
+				out := make([]c28op, len(p))
+				for i, x := range p {
+					out[i] = ops[x]
 				}
-				base := frontier[i].path
-				var loc []node
-				var ls, lm, lp int64
-				buf := make([]uint8, len(base)+1)
-				copy(buf, base)
-				for oi := range ops {
-					buf[len(base)] = uint8(oi)
-					m, bad := c28Run(r, st.s, st.has, toOps(buf), keys)
-					if bad {
-						lp++
-						continue
+				return out
+			}
+			m0, bad0 := c28Run(r, st.s, st.has, nil, keys)
+			r.Eval(1)
+			if bad0 {
+				continue // reported; a start state that already disagrees is not expanded
+			}
+			visited.insert(m0.key())
+			r.Add("states", 1)
+			frontier := []node{{nil}}
+			for level := 0; level < depth && len(frontier) > 0; level++ {
+				lastLevel := level+1 == depth
+				var mu sync.Mutex
+				var next []node
+				var nStates, nTrans, nMulti, nPruned int64
+				r.Par(len(frontier), func(i int) {
+					if r.Expired() {
+						r.NotExhaustive("time budget reached during BFS level " + strconv.Itoa(level+1))
+						return
 					}
-					key := m.key()
-					var isNew bool
-					if lastLevel {
-						isNew = visited.insertHash(key)
-					} else {
-						isNew = visited.insert(key)
-					}
-					if isNew {
-						ls++
-						multi := false
-						seen := map[string]int{}
-						for _, e := range m {
-							seen[e.K]++
-							if seen[e.K] >= 2 {
-								multi = true
+					base := frontier[i].path
+					var loc []node
+					var ls, lm, lp int64
+					buf := make([]uint8, len(base)+1)
+					copy(buf, base)
+					for oi := range ops {
+						buf[len(base)] = uint8(oi)
+						m, bad := c28Run(r, st.s, st.has, toOps(buf), keys)
+						if bad {
+							lp++
+							continue
+						}
+						key := m.key()
+						var isNew bool
+						if lastLevel {
+							isNew = visited.insertHash(key)
+						} else {
+							isNew = visited.insert(key)
+						}
+						if isNew {
+							ls++
+							multi := false
+							seen := map[string]int{}
+							for _, e := range m {
+								seen[e.K]++
+								if seen[e.K] >= 2 {
+									multi = true
+								}
+							}
+							if multi {
+								lm++
+								r.NontrivialHash(c28fnv(strconv.Itoa(si) + "|" + key))
+							}
+							if !lastLevel {
+								loc = append(loc, node{append([]uint8(nil), buf...)})
 							}
 						}
-						if multi {
-							lm++
-							r.NontrivialHash(c28fnv(strconv.Itoa(si) + "|" + key))
+					}
+					mu.Lock()
+					next = append(next, loc...)
+					nStates += ls
+					nMulti += lm
+					nPruned += lp
+					nTrans += int64(len(ops))
+					mu.Unlock()
+					r.Eval(len(ops))
+				})
+				r.Add("states", nStates)
+				r.Add("transitions", nTrans)
+				r.Add("transitions_ending_in_a_violation(not expanded)", nPruned)
+				r.Add("states_with_2plus_values_under_one_key", nMulti)
+				r.Add(fmt.Sprintf("states_new_at_depth_%d_%s", level+1, pass.name), nStates)
+				if level == 1 && sampleN < 10 {
+					for _, n := range next[:min(2, len(next))] {
+						sampleN++
+						c := c28MakeCase(st.s, st.has, toOps(n.path))
+						var a Args
+						if st.has {
+							_, _, rest := c28SplitStart(st.s)
+							a.ParseBytes([]byte(rest))
 						}
-						if !lastLevel {
-							loc = append(loc, node{append([]uint8(nil), buf...)})
+						for _, o := range toOps(n.path) {
+							c28ApplyReal(&a, o)
 						}
+						r.Sample(map[string]any{"case": c, "query_string": strconv.QuoteToASCII(string(a.QueryString()))})
 					}
 				}
-				mu.Lock()
-				next = append(next, loc...)
-				nStates += ls
-				nMulti += lm
-				nPruned += lp
-				nTrans += int64(len(ops))
-				mu.Unlock()
-				r.Eval(len(ops))
-			})
-			r.Add("states", nStates)
-			r.Add("transitions", nTrans)
-			r.Add("transitions_ending_in_a_violation(not expanded)", nPruned)
-			r.Add("states_with_2plus_values_under_one_key", nMulti)
-			r.Add(fmt.Sprintf("states_new_at_depth_%d", level+1), nStates)
-			if level == 1 && sampleN < 10 {
-				for _, n := range next[:min(2, len(next))] {
-					sampleN++
-					c := c28MakeCase(st.s, st.has, toOps(n.path))
-					var a Args
-					if st.has {
-						a.ParseBytes([]byte(st.s))
-					}
-					for _, o := range toOps(n.path) {
-						c28ApplyReal(&a, o)
-					}
-					r.Sample(map[string]any{"case": c, "query_string": strconv.QuoteToASCII(string(a.QueryString()))})
-				}
+				frontier = next
 			}
-			frontier = next
 		}
 	}
-	r.Set("start_states", len(starts))
+	r.Set("start_states", len(starts)+len(extStarts))
 }
